@@ -4,8 +4,10 @@ package verifharness
 
 import (
 	"context"
+	bolt "go.etcd.io/bbolt"
 	"math/rand"
 	"os"
+	"path/filepath"
 	"sync"
 	"testing"
 	"testing/synctest"
@@ -483,8 +485,26 @@ func runC15History(t *testing.T, rec *Recorder, r *rand.Rand) {
 						}
 					}
 				}
+				// somebody else uses the database at the moment the controllers want to load from it (a `fan2go fan ...`
+				// command run by the user, another fan's controller): they have to wait for the file lock, not give up
+				holder := make(chan struct{})
+				if r.Intn(3) == 0 {
+					go func() {
+						defer close(holder)
+						time.Sleep(2300 * time.Millisecond)
+						db, err := bolt.Open(filepath.Join(dir, "fan2go.db"), 0600, &bolt.Options{Timeout: time.Second})
+						if err != nil {
+							return
+						}
+						time.Sleep(time.Duration(200+r.Intn(600)) * time.Millisecond)
+						_ = db.Close()
+					}()
+				} else {
+					close(holder)
+				}
 				h.Start(ctx, Ev{"newTrace": first, "scenario": Ev{"c15": true, "op": o}})
 				h.Wait()
+				<-holder
 				h.Final()
 			})
 			first = false
